@@ -724,6 +724,30 @@ func (la *LockAnalysis) GuardedElems(tf, lf, getSpec string, minSites int) {
 	}
 }
 
+// NotHeldAtCalls (K8c): no call matching spec inside fn happens while lock lf is held in any mode (waiting for other
+// goroutines, or calling out to handlers, under a lock that those goroutines or handlers may need).
+func (la *LockAnalysis) NotHeldAtCalls(fn *ssa.Function, spec, lf string, why string) {
+	c := la.c
+	if fn == nil {
+		return
+	}
+	name := load.QualName(fn)
+	sites := CallsIn(fn, spec)
+	if len(sites) == 0 {
+		c.Fail("floor", name, "K8c: call of "+spec+" present", "-", "not found")
+		return
+	}
+	for _, ci := range sites {
+		c.Sites++
+		what := "call " + spec + " runs with " + lf + " released"
+		if _, held := la.HeldAt(ci)[lf]; held {
+			c.Fail("K8c", name, what, c.At(ci), "the lock is still held here ("+why+")")
+		} else {
+			c.OK("K8c", name, what, c.At(ci), why)
+		}
+	}
+}
+
 // HeldAtCalls (K8b/K2): every call matching spec inside function fn happens
 // with lock lf held in at least the given mode.
 func (la *LockAnalysis) HeldAtCalls(fn *ssa.Function, spec, lf string, excl bool, why string) {
